@@ -20,7 +20,7 @@ PROPS = {
             'align_struct preconditions (struct or word with sized members; layout fits usize) are the typer\'s obligation, not verified'], 'trusted': []},
     'C08': {'units': ['U-MUT', 'U-MUTW', 'U-FCALL'], 'assumptions': ['the whole-program non-interference consequence is not under contract; constant initialisers are not walked by mutability.rs (relies on constness.rs, not under contract)'], 'trusted': []},
     'C12': {'units': ['U-EXPORT', 'U-KEYOFF'], 'assumptions': ['expand (import fix-point), Compiler multi-module state and split-equivalence are not under contract'], 'trusted': []},
-    'C13': {'units': ['U-CODE', 'U-LEXD', 'U-LOC'], 'assumptions': ['alpha spans, rendering (ariadne) and run-to-run determinism are not under contract'], 'trusted': []},
+    'C13': {'units': ['U-CODE', 'U-LEXD', 'U-LEXA', 'U-LOC'], 'assumptions': ['rendering (ariadne), parser-side span combination beyond Location::combined_with, and run-to-run determinism (HashMap/HashSet iteration) are not under contract', 'alpha lexer spans: as under C14 (line offsets are the running sum of chars+1, not the true index for CRLF sources: D9)'], 'trusted': []},
     'C14': {'units': ['U-LEXD', 'U-LEXA'], 'assumptions': ['the headline equivalence of the two lexers is not stated as one theorem: each lexer is verified against its own declarative token/span/value spec',
             'alpha lexer: line offsets are proved to be the running sum of (characters + 1) per line, not the true character index (false for CRLF sources: D9); str::lines is modelled only by: sum of (chars+1) over lines <= chars+1, "" has no lines',
             'alpha lexer: keyword and punctuation tables in the spec restate the language tables (no documented list exists in the repository)'], 'trusted': []},
@@ -33,6 +33,13 @@ PROPS = {
             'refs_ok (no node id stored in a public node points below the number of skipped nodes, i.e. no reference crosses a zone) stays a precondition of build_header: it is NOT proved of the parser output. The other half of the tree invariant (zones well bracketed: tree_ok) IS proved as a postcondition of parse() and matches build_header\'s precondition literally (same spec file)',
             'parse() and build_header() are verified in two units (U-PARSE, U-HDR) that include the same spec text spec/u_hdr_spec.rs; the composition parse();build_header() is by matching pre/postcondition text, not by one Verus run',
             'the semantic reading "exactly the public interface" relies on the zone discipline: private declarations and the bodies of public functions are parsed inside a private zone, public declarations outside (proved: C17.parse.zone_matches_visibility, function_body_is_parsed_inside_a_private_zone)'], 'trusted': []},
+}
+
+# clauses labelled for one property that also decide part of another one (the unit serves both)
+ALSO_RELEVANT = {
+    'C14': ['C15.tokbuf.payload', 'C15.tokbuf.packed_word', 'C15.tokbuf.push_appends', 'C15.tokbuf.push_token_appends', 'C15.tokbuf.two_end_of_source'],
+    'C13': ['C14.lexa.span', 'C14.lexa.token_span', 'C14.lexa.token_on_given_line', 'C14.lexa.error_token_span', 'C14.lexa.escape_error_span', 'C14.lexa.missing_quote_error_spans',
+            'C14.lexa.tokens_appended_with_increasing_spans', 'C14.lexa.line_offset_is_sum', 'C14.lexa.file_token_spans', 'C14.lexa.empty_file_is_reported', 'C14.lexa.offsets_fit'],
 }
 
 NOT_APPLICABLE = {
